@@ -2,6 +2,9 @@ package rules
 
 import (
 	"fmt"
+	"go/token"
+	"go/types"
+	"strings"
 
 	"golang.org/x/tools/go/ssa"
 )
@@ -168,6 +171,152 @@ func loopVarCaptures(c *Ctx, f *ssa.Function) []string {
 							break
 						}
 					}
+				}
+			}
+		}
+	}
+	return out
+}
+
+// pooledEscapes lists return statements of f whose value aliases an object that f hands back to a pool
+// (sync.Pool.Put, directly or deferred): the caller would keep reading storage that the next Get hands to
+// someone else. Aliasing is followed through slicing, field/index addresses, phis, conversions that do not copy,
+// and the accessor methods of bytes.Buffer that return its internal storage.
+func pooledEscapes(c *Ctx, f *ssa.Function) []string {
+	pooled := map[ssa.Value]bool{}
+	for _, b := range f.Blocks {
+		for _, ins := range b.Instrs {
+			ci, ok := ins.(ssa.CallInstruction)
+			if !ok {
+				continue
+			}
+			cc := ci.Common()
+			callee := cc.StaticCallee()
+			if callee == nil || callee.Name() != "Put" || len(cc.Args) < 2 {
+				continue
+			}
+			if s := callee.String(); s != "(*sync.Pool).Put" && !strings.HasSuffix(s, "BufferPool).Put") {
+				continue
+			}
+			v := cc.Args[1]
+			for {
+				switch x := v.(type) {
+				case *ssa.MakeInterface:
+					v = x.X
+					continue
+				case *ssa.ChangeInterface:
+					v = x.X
+					continue
+				}
+				break
+			}
+			pooled[v] = true
+			// the same object seen through its interface form / type assertion
+			if ta, ok := v.(*ssa.TypeAssert); ok {
+				pooled[ta.X] = true
+			}
+		}
+	}
+	if len(pooled) == 0 {
+		return nil
+	}
+	alias := map[ssa.Value]bool{}
+	for v := range pooled {
+		alias[v] = true
+	}
+	aliasingAccessor := func(cc *ssa.CallCommon) bool {
+		callee := cc.StaticCallee()
+		if callee == nil {
+			return false
+		}
+		switch callee.String() {
+		case "(*bytes.Buffer).Bytes", "(*bytes.Buffer).Next", "(*bytes.Buffer).AvailableBuffer":
+			return len(cc.Args) > 0 && alias[cc.Args[0]]
+		}
+		return false
+	}
+	holder := map[*ssa.Alloc]bool{}
+	for changed := true; changed; {
+		changed = false
+		add := func(v ssa.Value) {
+			if !alias[v] {
+				alias[v] = true
+				changed = true
+			}
+		}
+		for _, b := range f.Blocks {
+			for _, ins := range b.Instrs {
+				switch x := ins.(type) {
+				case *ssa.Store:
+					// result variables spilled to locals by a defer
+					if al, ok := x.Addr.(*ssa.Alloc); ok && alias[x.Val] && !holder[al] {
+						holder[al] = true
+						changed = true
+					}
+				case *ssa.Slice:
+					if alias[x.X] {
+						add(x)
+					}
+				case *ssa.FieldAddr:
+					if alias[x.X] {
+						add(x)
+					}
+				case *ssa.IndexAddr:
+					if alias[x.X] {
+						add(x)
+					}
+				case *ssa.UnOp:
+					if al, ok := x.X.(*ssa.Alloc); ok && x.Op == token.MUL && holder[al] {
+						add(x)
+					}
+					if x.Op == token.MUL && alias[x.X] {
+						if _, isPtrOrSlice := x.Type().Underlying().(*types.Basic); !isPtrOrSlice {
+							add(x)
+						}
+					}
+				case *ssa.Phi:
+					for _, e := range x.Edges {
+						if alias[e] {
+							add(x)
+						}
+					}
+				case *ssa.ChangeType:
+					if alias[x.X] {
+						add(x)
+					}
+				case *ssa.MakeInterface:
+					if alias[x.X] {
+						add(x)
+					}
+				case *ssa.TypeAssert:
+					if alias[x.X] {
+						add(x)
+					}
+				case *ssa.Extract:
+					if alias[x.Tuple] {
+						add(x)
+					}
+				case *ssa.Call:
+					if aliasingAccessor(x.Common()) {
+						add(x)
+					}
+				}
+			}
+		}
+	}
+	var out []string
+	for _, b := range f.Blocks {
+		for _, ins := range b.Instrs {
+			ret, ok := ins.(*ssa.Return)
+			if !ok {
+				continue
+			}
+			for _, r := range ret.Results {
+				if alias[r] {
+					if _, isBasic := r.Type().Underlying().(*types.Basic); isBasic {
+						continue // strings and numbers are copies
+					}
+					out = append(out, fmt.Sprintf("%s: the returned %s aliases an object this function returns to a pool (the next Get may overwrite it while the caller still reads it)", c.P.Pos(ret.Pos()), r.Type()))
 				}
 			}
 		}
